@@ -35,8 +35,21 @@ func c10srvParts(c *vx.Ctx) []c10srvPart {
 	blk := []string{"PING", "UNB", "BLK"}
 	seedTwoBlk := append(append([]string(nil), seedTwo...), "BLK")
 	seedCLBlk := []string{"H(4)", "BLK"} // one stream with a declared content-length, nothing sent yet
+	// The application's ConnState callback is slow (HOLD): closeStream of the
+	// last stream calls it on the serve goroutine after marking the stream
+	// closed and before refunding what is still buffered; handler Reads made
+	// meanwhile are reported to the serve loop only after the callback
+	// returned (REL, implied at the end of a case), for a closed stream.
+	hook := []string{"REL", "HOLD"}
+	seedOpenHold := append(append([]string(nil), seedOpen...), "HOLD")
+	seedCLHold := []string{"H(4)", "D(1,4,0,0)", "HOLD"} // content-length reached: one more byte makes the server reset the stream
+	seedTwoHold := append(append([]string(nil), seedTwo...), "HOLD")
+	seedBigHold := []string{"H(-1)", "D(1,16384,0,0)", "HOLD"}
 	if c.Quick() {
 		return []c10srvPart{
+			{"srv/win8/buffered/slow-connstate-callback", small, seedOpenHold, c10srvAlphabet(nil, dSmallQ, []int64{1, 100}, append(append([]string(nil), hdl...), hook...), nil), 3},
+			{"srv/win8/content-length-reached/slow-connstate-callback", small, seedCLHold, c10srvAlphabet(nil, dSmallQ, []int64{1, 100}, append(append([]string(nil), hdl...), hook...), nil), 3},
+			{"srv/default/big-frame/slow-connstate-callback", large, seedBigHold, c10srvAlphabet(nil, dLargeQ, []int64{100, 20000}, []string{"C", "DONE", "RST", "REL"}, nil), 3},
 			{"srv/default/two-buffered/client-not-reading", large, seedTwoBlk, c10srvAlphabet(nil, dLargeQ, []int64{1, 100}, append(append([]string(nil), hdl...), blk...), nil), 3},
 			{"srv/win8/content-length/client-not-reading", small, seedCLBlk, c10srvAlphabet([]int64{-1}, dSmallQ, []int64{1, 100}, append(append([]string(nil), hdl...), blk...), nil), 4},
 			{"srv/win8/empty", small, nil, c10srvAlphabet([]int64{-1, 4}, dSmallQ, []int64{1, 100}, hdl, nil), 4},
@@ -47,6 +60,10 @@ func c10srvParts(c *vx.Ctx) []c10srvPart {
 		}
 	}
 	return []c10srvPart{
+		{"srv/win8/buffered/slow-connstate-callback", small, seedOpenHold, c10srvAlphabet([]int64{4}, dSmallT, []int64{1, 100}, append(append([]string(nil), hdlT...), hook...), nil), 4},
+		{"srv/win8/content-length-reached/slow-connstate-callback", small, seedCLHold, c10srvAlphabet([]int64{-1}, dSmallT, []int64{1, 100}, append(append([]string(nil), hdlT...), hook...), nil), 4},
+		{"srv/default/two-buffered/slow-connstate-callback", large, seedTwoHold, c10srvAlphabet(nil, dLargeQ, []int64{1, 100}, append(append([]string(nil), hdl...), hook...), nil), 4},
+		{"srv/default/big-frame/slow-connstate-callback", large, seedBigHold, c10srvAlphabet([]int64{-1}, dLargeT, []int64{100, 20000}, append(append([]string(nil), hdlT...), hook...), nil), 4},
 		{"srv/default/two-buffered/client-not-reading", large, seedTwoBlk, c10srvAlphabet(nil, dLargeT, []int64{1, 100}, append(append([]string(nil), hdlT...), blk...), nil), 4},
 		{"srv/win8/content-length/client-not-reading", small, seedCLBlk, c10srvAlphabet([]int64{-1}, dSmallT, []int64{1, 100}, append(append([]string(nil), hdlT...), blk...), nil), 5},
 		{"srv/win8/empty", small, nil, c10srvAlphabet([]int64{-1, 4, 10}, dSmallT, []int64{1, 100}, hdlT, nil), 5},
@@ -62,11 +79,12 @@ func c10srvParts(c *vx.Ctx) []c10srvPart {
 func TestVerif_C10(t *testing.T) {
 	DisableGoroutineTracking(t) // debug-only goroutine-ownership assertions (stack parsing); no behavioural effect
 	vx.Run(t, "C10", func(c *vx.Ctx) {
-		c.Rule("EV, server part: for each part (configured stream window 8 or default x seed prefix) every event sequence of depth 1..D after the seed over {H(content-length none|4|10) (<=2 POST streams), DATA(stream, len, padding, END_STREAM) inside the client's view of both windows (also on finished/reset/ignored streams), handler Read(n), Body.Close, handler return, handler panic, client RST_STREAM, client trailers, a connection error provoking GOAWAY, graceful GOAWAY, and in the */client-not-reading parts BLK (the client stops reading: receive buffer 0, every server write blocks, the frames it produces afterwards queue behind the stuck one and streams it resets or finishes stay in its table), PING (its ack is one such stuck write) and UNB (the client reads again and drains the connection; implied at the end of every case that is still blocked)}, pruned by a predictive model and decided on the real state at run time; each sequence runs on a fresh real http2.Server in its own synctest bubble; after every event at quiescence: white-box sc.inflow.avail+unsent+sum(unread buffered) == configured connection window, the same per open stream, advertised window == wire view, every WINDOW_UPDATE keeps the client's view <= configured and <= 2^31-1, and with no open streams the client's view is within inflowMinRefresh of the configured window; between BLK and UNB only the white-box equations are evaluated, the clauses about the client's view are evaluated after UNB once everything queued has been written and read. non-trivial = at least one DATA frame was sent")
+		c.Rule("EV, server part: for each part (configured stream window 8 or default x seed prefix) every event sequence of depth 1..D after the seed over {H(content-length none|4|10) (<=2 POST streams), DATA(stream, len, padding, END_STREAM) inside the client's view of both windows (also on finished/reset/ignored streams), handler Read(n), Body.Close, handler return, handler panic, client RST_STREAM, client trailers, a connection error provoking GOAWAY, graceful GOAWAY, and in the */client-not-reading parts BLK (the client stops reading: receive buffer 0, every server write blocks, the frames it produces afterwards queue behind the stuck one and streams it resets or finishes stay in its table), PING (its ack is one such stuck write) and UNB (the client reads again and drains the connection; implied at the end of every case that is still blocked), and in the */slow-connstate-callback parts HOLD (the application's net/http ConnState callback, which the server calls on its serve goroutine, will not return from its next StateIdle call: closeStream of the last stream in the table - after a client RST_STREAM, a server reset, the end of the response - stays suspended after marking the stream closed and before refunding the buffered bytes; meanwhile only the handler of that stream acts (Read, Body.Close): the bytes a Read takes are reported to the serve loop for an already closed stream) and REL (the callback returns; implied at the end of every case that is still suspended)}, pruned by a predictive model and decided on the real state at run time; each sequence runs on a fresh real http2.Server in its own synctest bubble; after every event at quiescence: white-box sc.inflow.avail+unsent+sum(unread buffered) == configured connection window, the same per open stream, advertised window == wire view, every WINDOW_UPDATE keeps the client's view <= configured and <= 2^31-1, and with no open streams the client's view is within inflowMinRefresh of the configured window; while closeStream is suspended nothing is evaluated (no quiescent point; the clauses are evaluated after REL); between BLK and UNB only the white-box equations are evaluated, the clauses about the client's view are evaluated after UNB once everything queued has been written and read. non-trivial = at least one DATA frame was sent")
 		c.Assume("credit below inflowMinRefresh (4096) that the implementation deliberately batches in inflow.unsent counts as returned (it is sent with the next refresh); a one-byte leak still breaks the white-box equation")
 		c.Assume("DATA beyond the advertised windows is C11's domain and is not sent in C10 cases")
 		c.Assume("server part: when DATA with payload and END_STREAM arrives after the handler closed the request body the server drops that frame's END_STREAM flag (processData returns early); client and server then disagree about the stream state, so no further DATA is sent on such a stream")
 		c.Assume("server part: PING is enumerated only while the client is not reading and once per such period (otherwise its ack is written and read at once and no flow-control state depends on it); a blocked server write is modelled by a peer receive buffer of 0 bytes, so either nothing or everything the server has queued is on the wire")
+		c.Assume("server part: a handler Read that is in flight while the serve loop closes its stream is produced only by the serve loop being held inside the application's ConnState(StateIdle) callback (last stream of the connection); while it is held only the handler of the stream being closed acts, so that after REL the loop has a single kind of input pending. The same overlap decided by the serve loop's select between a pending frame and a pending body-read report, or by goroutine scheduling, is below event granularity and not explored")
 		c.Assume("interleavings are explored at event granularity (L2)")
 		c.Rule("states = explored event histories (stateless search), transitions = events applied to the real endpoint and checked at quiescence, traces = histories executed to their end")
 		c08Determinism(c, func(w *vx.W, t testing.TB) ([]string, string) {
